@@ -74,7 +74,7 @@ void harness(void)
 		V_CHECK("split: second message is the reference decoder's (length, consumed bytes)", ref2 >= 0 && dec.data.msg == (ssize_t) ref2 && dec.curr == in_p + 1 + used1 + used2);
 		V_CHECK("split: second message is the reference decoder's (bytes)", IMP(in_k < (size_t) ref2, store[dec.data.pos + in_k] == ref2_out[in_k]));
 	}
-#if NEW >= 4
+#if NEW >= 4 && MAXC >= 2
 	V_COVER("cut inside a data run, second frame delivered", d == 1 && ref2 >= 0 && in_code >= 2 && in_p < (size_t) in_code - 1);
 #endif
 	V_COVER("second frame delivered", d == 1 && ref2 >= 0);
